@@ -501,13 +501,15 @@ class World:
                     if rec is None:
                         continue
                     suf = None
-                    if cnt.kind == 'MemberExpr' and cnt.d.get('isArrow'):
-                        y = cnt.inner[0].strip()
-                        if y.kind == 'DeclRefExpr' and y.ref_kind in ('VarDecl', 'ParmVarDecl'):
-                            if y.ref_id == b.ref_id:
-                                suf = '->' + cnt.name
-                            elif y.ref_id not in writes and len(links.get((b.ref_id, y.ref_id), ())) == 1:
-                                suf = '->%s->%s' % (list(links[(b.ref_id, y.ref_id)])[0], cnt.name)
+                    chain, y = '', cnt
+                    while y.kind == 'MemberExpr' and y.d.get('isArrow'):
+                        chain = '->' + y.name + chain
+                        y = y.inner[0].strip()
+                    if chain and y.kind == 'DeclRefExpr' and y.ref_kind in ('VarDecl', 'ParmVarDecl'):
+                        if y.ref_id == b.ref_id:
+                            suf = chain
+                        elif y.ref_id not in writes and len(links.get((b.ref_id, y.ref_id), ())) == 1:
+                            suf = '->%s%s' % (list(links[(b.ref_id, y.ref_id)])[0], chain)
                     self.len_specs.setdefault((rec, l.name), set()).add(suf)
                     if suf:
                         self.len_names.add(suf.rsplit('->', 1)[1])
@@ -1735,6 +1737,19 @@ class Engine:
                 T, F = [], []
                 for s, (va, vb) in self.ev_list(e.inner[:2], S):
                     t, f = self.compare(s, va, vb, e.inner[0], e.inner[1])
+                    if va.path is not None and vb.path is not None:
+                        # x <= y and x != y: x < y
+                        for st in f:
+                            for pv, cv in ((va, vb), (vb, va)):
+                                w = st.vs.get(pv.path + '#le')
+                                b = self.canon_path(st, cv.path)
+                                if w is not None and w[0] == 'rel' and b in w[1]:
+                                    r = w[1] - frozenset([b])
+                                    if r:
+                                        st.vs[pv.path + '#le'] = ('rel', r)
+                                    else:
+                                        del st.vs[pv.path + '#le']
+                                    self.add_rel(st, pv.path, True, b)
                     T += t
                     F += f
                 return (T, F) if op == '==' else (F, T)
